@@ -25,6 +25,16 @@ def load_propcfg():
     return json.load(open(os.path.join(ROOT, 'contracts', 'properties.json')))
 
 
+def _fn_norm(x):
+    """'<A as T>::m', 'T for A::m' -> 'A::m'; 'trait T::m' -> 'T::m'; '::f' -> 'f'"""
+    x = x.strip()
+    m = re.match(r'^<(\w+) as \w+>::(\w+)$', x) or re.match(r'^\w+ for (\w+)::(\w+)$', x)
+    if m:
+        return m.group(1) + '::' + m.group(2)
+    x = re.sub(r'^trait\s+', '', x)
+    return x.lstrip(':')
+
+
 def update_baseline(units, run_unit, obligations_of):
     base = {}
     bad = False
@@ -194,7 +204,7 @@ def check_property(prop, tier, seed, units, no_kani=False, verbose=False):
                 tg = set(h['target'].split(', '))
                 for unit, f in violations:
                     fn = (f.get('fn') or '')
-                    if fn in tg or ('trait ' + fn) in tg or fn.split('::')[-1] in set(t.split('::')[-1] for t in tg):
+                    if fn in tg or ('trait ' + fn) in tg or _fn_norm(fn) in set(_fn_norm(t) for t in tg):
                         f['replay_extra'] = (f.get('replay_extra') or '') + 'Kani harness %s, counterexample (%s)\n%s\n' % (h['name'], h.get('counterexample'), h['replay'])
             if h['status'] == 'SUCCESSFUL':
                 if h.get('bounded'):
